@@ -1,6 +1,7 @@
 import Driver.L0Packet
 import Driver.L0Update
 import Driver.L0Server
+import Driver.Live
 /-! Line-protocol loop of the L0 differential driver. -/
 namespace Driver
 
@@ -43,8 +44,12 @@ def main (args : List String) : IO UInt32 := do
     loopL0 (← IO.getStdin) (← IO.getStdout)
     (← IO.getStdout).flush
     return 0
+  | ["live"] =>
+    loopLive (← IO.getStdin) (← IO.getStdout) "" #[]
+    (← IO.getStdout).flush
+    return 0
   | _ =>
-    IO.eprintln "usage: driver l0 < lines"
+    IO.eprintln "usage: driver l0|live < lines"
     return 2
 
 end Driver
